@@ -121,6 +121,9 @@ type Call struct {
 	Body  string `json:"body,omitempty"`  // payload json: the body as JSON text
 	Files []File `json:"files,omitempty"` // aligned with Op.FileFields
 	Res   Result `json:"res"`
+	// Stream (payload json): the caller hands the body over as a reader over its JSON text (length unknown to the
+	// client, sent chunked) instead of a value. (r9)
+	Stream bool `json:"stream,omitempty"`
 }
 
 // Auth is the client auth writer of an operation (and the matching security scheme of the description).
@@ -628,7 +631,11 @@ func submit(rt *client.Runtime, w *wire, oi int, op Op, call *Call, o *obs, wher
 			}
 		}
 		if op.hasBody() {
-			if err := req.SetBodyParam(body); err != nil {
+			var payload interface{} = body
+			if call.Stream && op.Payload == "json" {
+				payload = struct{ io.Reader }{strings.NewReader(call.Body)}
+			}
+			if err := req.SetBodyParam(payload); err != nil {
 				return err
 			}
 		}
